@@ -203,6 +203,41 @@ pub proof fn contract_c10_total_is_sum(s: L_State, i: int, j: int)
     assumed_c10_2(s, Zeroth);
 }
 
+// ---- C10 (derived): the selector-taking properties that are LINEAR in the Helmholtz energy also split into
+// ideal gas + residual (c_p, kappa_T, kappa_s, mu_JT, alpha_p are ratios and do not)
+pub proof fn contract_c10_derived_total_is_sum(s: L_State)
+    requires s.density * s.temperature * RGAS() != 0real
+    ensures
+        dp_drho(s, Contributions::Total) == dp_drho(s, Contributions::IdealGas) + dp_drho(s, Contributions::Residual),
+        d2p_drho2(s, Contributions::Total) == d2p_drho2(s, Contributions::IdealGas) + d2p_drho2(s, Contributions::Residual),
+        compressibility(s, Contributions::Total) == compressibility(s, Contributions::IdealGas) + compressibility(s, Contributions::Residual),
+        enthalpy(s, Contributions::Total) == enthalpy(s, Contributions::IdealGas) + enthalpy(s, Contributions::Residual),
+        internal_energy(s, Contributions::Total) == internal_energy(s, Contributions::IdealGas) + internal_energy(s, Contributions::Residual),
+        gibbs_energy(s, Contributions::Total) == gibbs_energy(s, Contributions::IdealGas) + gibbs_energy(s, Contributions::Residual),
+{
+    let (tot, ig, res) = (Contributions::Total, Contributions::IdealGas, Contributions::Residual);
+    // the primitive split and the closed forms of the derived properties (both proved above / below)
+    contract_c10_total_is_sum(s, 0, 0);
+    contract_c01_caloric_potentials(s, tot);
+    contract_c01_caloric_potentials(s, ig);
+    contract_c01_caloric_potentials(s, res);
+    let (t, v, rho) = (s.temperature, s.volume, s.density);
+    // each step: k * (a + b) == k * a + k * b for the common factor of the closed form
+    let k1 = (-v) / rho;
+    lemma_distribute(k1, dp_dv(s, ig), dp_dv(s, res));
+    let k2 = v / (rho * rho);
+    lemma_distribute(k2, v * d2p_dv2(s, ig) + 2real * dp_dv(s, ig), v * d2p_dv2(s, res) + 2real * dp_dv(s, res));
+    lemma_distribute(v, d2p_dv2(s, ig), d2p_dv2(s, res));
+    lemma_div_distribute(pressure(s, ig), pressure(s, res), rho * t * RGAS());
+    lemma_distribute(t, entropy(s, ig), entropy(s, res));
+    lemma_distribute(v, pressure(s, ig), pressure(s, res));
+    assert(pressure(s, tot) * v == v * pressure(s, tot)) by(nonlinear_arith);
+    assert(pressure(s, ig) * v == v * pressure(s, ig)) by(nonlinear_arith);
+    assert(pressure(s, res) * v == v * pressure(s, res)) by(nonlinear_arith);
+}
+proof fn lemma_distribute(k: real, a: real, b: real) by(nonlinear_arith) ensures k * (a + b) == k * a + k * b {}
+proof fn lemma_div_distribute(a: real, b: real, d: real) by(nonlinear_arith) requires d != 0real ensures (a + b) / d == a / d + b / d {}
+
 // ---- C01.4: key and sign of every listed property (right-hand sides from the statement:
 // p = -dA/dV, S = -dA/dT, mu_i = dA/dN_i, and their derivatives)
 pub proof fn contract_c01_4_key_and_sign(s: L_State, i: int, j: int)
